@@ -38,6 +38,11 @@ pub fn dash_path(path: &Path, dash_array: &[f32], mut dash_offset: f32) -> Path 
     if dash_offset < 0. {
         dash_offset += total_dash_length;
     }
+    if dash_offset.is_infinite() {
+        // the total overflowed to infinity, so a negative offset has nothing to wrap around to
+        // (and the loop below would never get there)
+        dash_offset = 0.;
+    }
 
     // To handle closed paths we need a bunch of extra state so that we properly
     // join the first segment. Unfortunately, this makes the code sort of hairy.
